@@ -372,7 +372,8 @@ def follow_validate(repo, overrides: Dict[str, object]):
         if "sparse_solver" in text or "SparseSolver" in text:
             return False
         return None
-    mach = Machine({"self": SO("self"), **module_constants(fv.module.tree)}, attrs, call, fuel=16, undecided=undecided)
+    from ..smallstep import follow_private_methods
+    mach = Machine({"self": SO("self"), **module_constants(fv.module.tree)}, attrs, follow_private_methods(C, call), fuel=16, undecided=undecided)
     return mach.run_function(fv.node)
 
 
@@ -444,9 +445,13 @@ def terminal_current_validator(ctx, fv):
             env["num_evals"] = 3
         mach = Machine(env, attrs, call, fuel=16, undecided=None)
 
+        base_iterate = mach.iterate
+
         def iterate(v, node):
             # the sampled times: three of them
-            return [SO("t0"), SO("t1"), SO("t2")]
+            if isinstance(v, SO):
+                return [SO("t0"), SO("t1"), SO("t2")]
+            return base_iterate(v, node)
         mach.iterate = iterate
         return mach.run_function(fv.node)
     cases = [("balanced dict", {"callable": False, "value": {"a": 1.0, "b": -1.0}}, "return"),
